@@ -50,3 +50,7 @@ func verifWalk(n node, path []byte, slot int, visit func(VerifNode)) {
 
 // VerifCacheGen returns the current cache generation and limit.
 func (t *Trie) VerifCacheGen() (uint16, uint16) { return t.cachegen, t.cachelimit }
+
+// VerifSetCacheGen sets the cache generation counter (C17 harness: reach the uint16 wrap of
+// cachegen without 65536 commits). Test set-up only.
+func (t *Trie) VerifSetCacheGen(g uint16) { t.cachegen = g }
